@@ -485,6 +485,44 @@ func deleteConfigEntryTxn(tx WriteTxn, idx uint64, kind, name string, entMeta *a
 	return nil
 }
 
+// cleanupReplacedDestination removes what a service-defaults entry with a
+// Destination left in the gateway-services and kind-service-names tables when
+// that entry is overwritten by one without a Destination (the same cleanup
+// deleteConfigEntryTxn performs when such an entry is deleted).
+func cleanupReplacedDestination(tx WriteTxn, idx uint64, conf structs.ConfigEntry) error {
+	q := configentry.NewKindName(conf.GetKind(), conf.GetName(), conf.GetEnterpriseMeta())
+	existing, err := tx.First(tableConfigEntries, indexID, q)
+	if err != nil {
+		return fmt.Errorf("failed config entry lookup: %s", err)
+	}
+	prev, ok := existing.(*structs.ServiceConfigEntry)
+	if !ok || prev == nil || prev.Destination == nil {
+		return nil
+	}
+
+	sn := structs.NewServiceName(conf.GetName(), conf.GetEnterpriseMeta())
+	gsKind, err := GatewayServiceKind(tx, sn.Name, &sn.EnterpriseMeta)
+	if err != nil {
+		return fmt.Errorf("failed to get gateway service kind for service %s: %v", sn.Name, err)
+	}
+	if gsKind == structs.GatewayServiceKindDestination {
+		gsKind = structs.GatewayServiceKindUnknown
+	}
+	if err := checkGatewayWildcardsAndUpdate(tx, idx, &sn, nil, gsKind); err != nil {
+		return fmt.Errorf("failed updating gateway mapping: %s", err)
+	}
+	if err := cleanupGatewayWildcards(tx, idx, sn, true); err != nil {
+		return fmt.Errorf("failed to cleanup gateway mapping: \"%s\"; err: %v", sn, err)
+	}
+	if err := checkGatewayAndUpdate(tx, idx, &sn, gsKind); err != nil {
+		return fmt.Errorf("failed updating gateway mapping: %s", err)
+	}
+	if err := cleanupKindServiceName(tx, idx, sn, structs.ServiceKindDestination); err != nil {
+		return fmt.Errorf("failed to cleanup service name: \"%s\"; err: %v", sn, err)
+	}
+	return nil
+}
+
 func insertConfigEntryWithTxn(tx WriteTxn, idx uint64, conf structs.ConfigEntry) error {
 	if conf == nil {
 		return fmt.Errorf("cannot insert nil config entry")
@@ -502,6 +540,13 @@ func insertConfigEntryWithTxn(tx WriteTxn, idx uint64, conf structs.ConfigEntry)
 
 	switch kind {
 	case structs.ServiceDefaults:
+		if conf.(*structs.ServiceConfigEntry).Destination == nil {
+			// The entry being replaced may have defined a destination: the service
+			// stops being one, exactly as if that entry had been deleted.
+			if err := cleanupReplacedDestination(tx, idx, conf); err != nil {
+				return err
+			}
+		}
 		if conf.(*structs.ServiceConfigEntry).Destination != nil {
 			sn := structs.ServiceName{Name: conf.GetName(), EnterpriseMeta: *conf.GetEnterpriseMeta()}
 			gsKind, err := GatewayServiceKind(tx, sn.Name, &sn.EnterpriseMeta)
